@@ -1,7 +1,8 @@
 #![no_main]
-//! Engine Z (amplifier for C05 / C06): bytes -> farm history through the farm-history strategy;
-//! oracles = custody inequality after every step and the emission bound on every claim.
-use libfuzzer_sys::fuzz_target;
+//! Engine Z: the input is the JSON text of a generated history (the replay-file serialisation); a
+//! structure-aware mutator (dexh::fuzzglue::mutate_case) keeps inputs valid; the oracle is the
+//! harness's interpreter with its monitors, inside the target.
+use libfuzzer_sys::{fuzz_crossover, fuzz_mutator, fuzz_target};
 
 fuzz_target!(|data: &[u8]| {
     dexh::fuzzglue::init();
@@ -10,4 +11,14 @@ fuzz_target!(|data: &[u8]| {
             panic!("VIOLATION-IN-TARGET: {m}");
         }
     }
+});
+
+fuzz_mutator!(|data: &mut [u8], size: usize, max_size: usize, seed: u32| {
+    dexh::fuzzglue::init();
+    dexh::fuzzglue::mutate_case(&dexh::fuzzglue::farm_engine(), data, size, max_size, seed)
+});
+
+fuzz_crossover!(|data1: &[u8], data2: &[u8], out: &mut [u8], seed: u32| {
+    dexh::fuzzglue::init();
+    dexh::fuzzglue::crossover_case(&dexh::fuzzglue::farm_engine(), data1, data2, out, seed)
 });
